@@ -199,7 +199,16 @@ fn run_case(sink: &mut Sink, defs: &[Def], text: &str, qs: &[u32], verbose: bool
         format!("mkR {} {} {}", cn(d.lo), cn(d.hi + 1), cn(m))
     }));
     let qsv = clist(answers.iter().map(|(c, g)| cpair(&cn(*c), &cn(*g))));
-    let term = format!("check_case {} {}", rs, qsv);
+    // CharacterCategory::iter(): (left, right, classes) of every yielded range; None = it panicked
+    let it = catch(|| cc.iter().map(|(r, c)| (r.start as u32, r.end as u32, c.bits())).collect::<Vec<_>>());
+    let its = match &it {
+        Ok(v) => format!("(Some {})", clist(v.iter().map(|(a, b, c)| format!("({}, {}, {})", cn(*a), cn(*b), cn(*c))))),
+        Err(_) => "None".to_string(),
+    };
+    if it.is_err() {
+        sink.tag("iter_panics(default table)");
+    }
+    let term = format!("check_case_iter {} {} {}", rs, qsv, its);
     // non-trivial: at least two definition lines overlap or touch
     let mut nontrivial = false;
     for (i, a) in defs.iter().enumerate() {
